@@ -275,25 +275,13 @@ func (x *vtx) c17r1() {
 				bad = "an action other than doWrite(' ', true) in the TAB case: " + g.Ins[n].String()
 			}
 			if isTabWrite(n) {
-				// dominated by i < tabWidth with i a phi [0, i+1]
-				okLoop = hasFact(g.FactsAt(n), func(f Fact) bool {
-					return cmpMatch(f, token.LSS, func(v ssa.Value) bool {
-						phi, ok := v.(*ssa.Phi)
-						if !ok {
-							return false
-						}
-						z, s := false, false
-						for _, e := range phi.Edges {
-							if k, ok := constInt64(e); ok && k == 0 {
-								z = true
-							}
-							if b, ok := e.(*ssa.BinOp); ok && b.Op == token.ADD && b.X == ssa.Value(phi) && constArg(b.Y, 1) {
-								s = true
-							}
-						}
-						return z && s
-					}, x.fld(x.tabWidth))
-				})
+				// in a loop that runs tabWidth times (induction form: any counting direction)
+				zt := x.polyizer()
+				if lf, ok := g.loopFormAt(zt, g.Ins[n].Block()); ok {
+					trips, tok := lf.Trips, lf.TripsOK
+					lf.Done()
+					okLoop = tok && trips.equal(polyAtom("t.tabWidth"))
+				}
 			}
 		}
 		switch {
@@ -481,7 +469,8 @@ func (x *vtx) c17r2() {
 					if prm, ok := v.(*ssa.Parameter); ok {
 						facts := g.ValFacts(vc)
 						lo := hasFact(facts, func(f Fact) bool {
-							return cmpMatch(f, token.GEQ, func(v ssa.Value) bool { return v == ssa.Value(prm) }, func(v ssa.Value) bool { k, ok := constInt64(v); return ok && k == 1 })
+							return cmpMatch(f, token.GEQ, func(v ssa.Value) bool { return v == ssa.Value(prm) }, func(v ssa.Value) bool { k, ok := constInt64(v); return ok && k == 1 }) ||
+								cmpMatch(f, token.NEQ, func(v ssa.Value) bool { return v == ssa.Value(prm) }, isZeroConst)
 						})
 						hi := hasFact(facts, func(f Fact) bool {
 							return cmpMatch(f, token.LEQ, func(v ssa.Value) bool { return v == ssa.Value(prm) }, x.fld(dim))
